@@ -31,6 +31,10 @@ TECHNIQUE += '; class-level mutable attribute scan'
 EXPLANATION += ' R3 also rejects mutable values in class-level attributes (shared by all instances).'
 TECHNIQUE += '; key-completeness rule for local memo tables'
 EXPLANATION += ' R3 also runs the local-memo rule over all package functions.'
+# --- metadata added for batch 7
+TECHNIQUE += "; ownership analysis of dump-side entry points for state carried on the caller's object"
+EXPLANATION += " Added: (R6) an argument that a dump modifies carries state into the next call on the same object (ownership clause C09-R1); R1 also covers stores on function / class / module objects and `global` rebinding; R4's set-order rule recognises set algebra on dictionary views (`a.keys() & b.keys()`) and effects made through package helpers that write a record."
+# --- end metadata batch 7
 TRUSTED = ["CPython ast parser", "module-level code runs once at import", "warnings.catch_warnings restores the filter state on exit"]
 
 AMBIENT = {
